@@ -29,8 +29,15 @@ OPS = [
     ("return-early-removed", re.compile(r"^\s*return;\s*$"), ""),
     ("+=1->+=0", re.compile(r"\+= 1;"), "+= 0;"),
     ("capacity-1", re.compile(r"bounded\(capacity\)"), "bounded(capacity + 1)"),
+    ("if-ident-negate", re.compile(r"\bif (\w+) \{"), r"if !\1 {"),
+    ("if-ident-true", re.compile(r"\bif (\w+) \{"), r"if true {"),
+    ("new_state->state", re.compile(r"\bnew_state\b"), "state"),
+    ("next_state->state", re.compile(r"&next_state\b"), "&self.state.lock().unwrap().clone()"),
+    ("Ok(())->Err", re.compile(r"^(\s*)Ok\(\(\)\)\s*$"), r'\1Err(StoreError::DispatchError("x".to_string()))'),
+    ("Some(action)->None", re.compile(r"Some\(&?action\)"), "None"),
     ("clone-state-stale", re.compile(r"\*state\.lock\(\)\.unwrap\(\) = new_state\.clone\(\);"), ""),
 ]
+SWAPPABLE = re.compile(r"^\s*[^/\s][^{}]*;\s*$")
 DELETE = re.compile(r"^\s*(self\.|rx_store\.|metrics\.|subscriber|subscribers\.|pool\.|tx\.|drop\(|effects\.|h\.join|let _ = h\.join)[^{}]*;\s*$")
 
 
@@ -54,6 +61,8 @@ def sites():
                         out.append((f, i, name, l, nl))
             if DELETE.match(l):
                 out.append((f, i, "delete-stmt", l, ""))
+            if i + 1 < end and SWAPPABLE.match(l) and SWAPPABLE.match(lines[i + 1]) and len(l) - len(l.lstrip()) == len(lines[i + 1]) - len(lines[i + 1].lstrip()):
+                out.append((f, i, "swap-adjacent", l, lines[i + 1] + "\n" + l + "\x00SKIPNEXT"))
     return out
 
 
@@ -68,7 +77,11 @@ def worker(args):
     p = os.path.join(wt, rel)
     lines = open(p).read().split("\n")
     assert lines[i] == old
-    lines[i] = new
+    if new.endswith("\x00SKIPNEXT"):
+        lines[i] = new[: -len("\x00SKIPNEXT")]
+        del lines[i + 1]
+    else:
+        lines[i] = new
     open(p, "w").write("\n".join(lines))
     r = sh("cargo test --offline --lib 2>&1 | tail -5", wt, timeout=1200)
     ok = "test result: ok" in r.stdout
